@@ -230,6 +230,13 @@ theorem dtInstantUs_local (d : DT) (tz : Tz) (hv : dtValid d = true) (htz : d.tz
   unfold dtInstantUs localUs toUs
   rw [htz, Option.map_some, spec_ordinal_eq _ _ _ hm]
 
+/-! Remark on tzinfos whose offset depends on the wall-clock time (zoneinfo zones, PEP-495 classes).  A `DT`/`TM` value
+carries the pair `(utcoffset(), tzname())` *of the value itself*; the write theorems below take that pair as input and
+state that the written offset and name are exactly it (`p.off = canonOff (tz.offUs / 60000000) tz.name`) while the
+date/time fields are those of the value bumped by 500 µs.  Taking `utcoffset()`/`tzname()` from the *bumped* value
+instead — which differs in the last 500 µs before a transition, e.g. 2021-11-07 01:59:59.9996 EDT — violates precisely
+this statement; the correspondence exercises it with transition tzinfos canonicalised by the original value's pair. -/
+
 /-- **C09_write (text).** An aware, valid datetime whose offset is a whole number of minutes in
     [-12:00, +14:00], whose zone name (if any) has no line feed and whose wall-clock time plus 500 µs lies in years
     1000..9999 is written as the text of the notation `YYYYMMDDHHMMSS.XXX[±h(.mm)?(:name)?]` (structurally: `p.render`
